@@ -7,7 +7,8 @@
      code 0 = "", code (+p) = "p" ++ bits, code (-p) = "n" ++ bits; bits = binary digits of p, least significant first,
      without the leading one, a = 0, b = 1  (injective: [zcode_inj]; only letters; never a primitive's name, never "if..")
      {group}   \def\zq..#1..#n{body}   \gdef..   \zq..{arg1}..{argn}   #k   ##
-     \iftrue | \iffalse | \ifnum<decimal digits><rel><decimal digits>\relax   then-branch  [\else else-branch]  \fi *)
+     \iftrue | \iffalse | \ifnum<decimal digits><rel><decimal digits>\relax   then-branch  [\else else-branch]  \fi
+     \ifcase<decimal digits>\relax branch0 \or branch1 ... [\else else-branch] \fi      (at least one branch) *)
 From Coq Require Import List NArith ZArith Bool.
 Import ListNotations.
 From Verif Require Import Val Tokenizer Expand MacroLang Engine.
@@ -63,6 +64,10 @@ Fixpoint print_node (n : node) : list tok :=
   | NHash => [hash_tok; hash_tok]
   | NCond t th el =>
       print_test t ++ print th ++ match el with Some e => esc s_else :: print e | None => [] end ++ [esc s_fi]
+  | NCase (OLit z) (b0 :: bs) el =>
+      esc s_ifcase :: map other (digits (Z.to_N z)) ++ esc s_relax :: print b0 ++
+      (fix pors (l : list (list node)) : list tok := match l with [] => [] | b :: r => esc s_or :: print b ++ pors r end) bs ++
+      match el with Some e => esc s_else :: print e | None => [] end ++ [esc s_fi]
   | _ => []
   end.
 Fixpoint print (l : list node) : list tok := match l with [] => [] | x :: r => print_node x ++ print r end.
@@ -86,7 +91,7 @@ Fixpoint f1_node (n : node) : bool :=
   end.
 Definition in_F1 (p : list node) : bool := forallb f1_node p.
 
-(* ---- fragment F2 = F1 + undelimited parameters:  \def\zq..#1..#n{body} with n <= 9, calls \zq..{arg1}..{argn}, #k in bodies.
+(* ---- fragment F2 = F1 + undelimited parameters + \ifcase:  \def\zq..#1..#n{body} with n <= 9, calls \zq..{arg1}..{argn}, #k in bodies.
    Three kinds of node lists:
      "argument"  (no #k at all; definitions only without parameters; any depth)                       [fa_node]
      "body of a macro with n parameters" (#k with 1 <= k <= n; definitions inside a body have no parameters of their own -
@@ -96,6 +101,10 @@ Definition in_F1 (p : list node) : bool := forallb f1_node p.
         calls whose arguments are arguments)                                                           [f2_node]       ---- *)
 Definition is_none {A} (o : option A) : bool := match o with None => true | Some _ => false end.
 
+(* \ifcase on a non-negative literal with at least one branch *)
+Definition case_head (a : operand) (bs : list (list node)) : bool :=
+  match a, bs with OLit z, _ :: _ => (0 <=? z)%Z | _, _ => false end.
+
 Fixpoint fa_node (x : node) : bool :=
   match x with
   | NWord _ => true
@@ -103,6 +112,7 @@ Fixpoint fa_node (x : node) : bool :=
   | NDef _ _ np d b => Nat.eqb np 0 && is_none d && forallb fa_node b
   | NCall _ o a => is_none o && forallb (forallb fa_node) a
   | NCond t th el => f1_test t && forallb fa_node th && match el with Some e => forallb fa_node e | None => true end
+  | NCase a bs el => case_head a bs && forallb (forallb fa_node) bs && match el with Some e => forallb fa_node e | None => true end
   | _ => false
   end.
 
@@ -122,6 +132,13 @@ Fixpoint fb_node (n : nat) (x : node) (d : nat) {struct x} : bool :=
       | S d' => forallb (fun y => fb_node n y d') th &&
                 match el with Some e => forallb (fun y => fb_node n y d') e | None => true end
       end
+  | NCase a bs el =>
+      case_head a bs &&
+      match d with
+      | O => false
+      | S d' => forallb (forallb (fun y => fb_node n y d')) bs &&
+                match el with Some e => forallb (fun y => fb_node n y d') e | None => true end
+      end
   | _ => false
   end.
 Definition BODY_DEPTH : nat := 49.      (* MacroLang.subst is called with fuel 50 = S BODY_DEPTH *)
@@ -135,6 +152,7 @@ Fixpoint f2_node (x : node) : bool :=
       (forallb (fun y => fb_node np y BODY_DEPTH) b || (Nat.eqb np 0 && forallb fa_node b))
   | NCall _ o a => is_none o && forallb (forallb fa_node) a
   | NCond t th el => f1_test t && forallb f2_node th && match el with Some e => forallb f2_node e | None => true end
+  | NCase a bs el => case_head a bs && forallb (forallb f2_node) bs && match el with Some e => forallb f2_node e | None => true end
   | _ => false
   end.
 Definition in_F2 (p : list node) : bool := forallb f2_node p.
@@ -179,6 +197,12 @@ Fixpoint gsafe (fuel : nat) (e : env) (out : list Z) (ns : list node) : bool :=
         end
     | NCond t th el =>
         let b := if eval_test e t then th else match el with Some x => x | None => [] end in
+        gsafe f e out b &&
+        match eval f e out b with Ok e' out' => gsafe f e' out' rest | _ => true end
+    | NCase a bs el =>
+        let z := opval e a in
+        let b := if ((0 <=? z) && (z <? Z.of_nat (length bs)))%Z then nth (Z.to_nat z) bs []
+                 else match el with Some x => x | None => [] end in
         gsafe f e out b &&
         match eval f e out b with Ok e' out' => gsafe f e' out' rest | _ => true end
     | _ => true
